@@ -118,31 +118,32 @@ outside them; concrete scripts are at the end of this file):
 namespace Bardolph
 open Vm VmSteps Sem Gen Sim
 
+variable {V : String → Prop}
 variable {img : Image} {K : Ctx}
 
 /-! ## every statement form of the fragment -/
 
-theorem Sim.stmts_zero : StmtsGoal img K 0 := by
+theorem Sim.stmts_zero : StmtsGoal V img K 0 := by
   intro st _ σ σ' o s pc exit stk _ _ _ h ho
   simp only [execStmt, Prod.mk.injEq] at h
   rcases ho with rfl | rfl <;> simp at h
 
 /-- the call statement at fuel `f + 1`, given the block statements at the fuel of the body -/
 theorem Sim.stmt_call_any (f : Nat)
-    (ihB : ∀ g, g + 2 = f + 1 → ∀ r st, BlockGoal img ⟨some (r, st), K.routines⟩ g)
-    (ihBR : ∀ g, g + 2 = f + 1 → ∀ r st, BlockRet img ⟨some (r, st), K.routines⟩ g)
-    (hR : RoutinesAt img K.routines) (g : String) (ps : List String) (as : Args)
+    (ihB : ∀ g, g + 2 = f + 1 → ∀ r st, BlockGoal V img ⟨some (r, st), K.routines⟩ g)
+    (ihBR : ∀ g, g + 2 = f + 1 → ∀ r st, BlockRet V img ⟨some (r, st), K.routines⟩ g)
+    (hR : RoutinesAt V img K.routines) (g : String) (ps : List String) (as : Args)
     (has : SimpleArgs as) (hnr : NoResultReg as) (hnd : ps.Nodup) :
     StmtGoal img K (.call g ps as) (f + 1) := by
   cases f with
   | zero => exact stmt_call_one g ps as
   | succ f => exact stmt_call f (ihB f rfl) (ihBR f rfl) hR g ps as has hnr hnd
 
-theorem Sim.stmts_step (f : Nat) (ihB : BlockGoal img K f) (ihOs : OperandsGoal img K f)
-    (ihL : LoopGoal img K f)
-    (ihCB : ∀ g, g + 2 = f + 1 → ∀ r st, BlockGoal img ⟨some (r, st), K.routines⟩ g)
-    (ihCBR : ∀ g, g + 2 = f + 1 → ∀ r st, BlockRet img ⟨some (r, st), K.routines⟩ g)
-    (hR : RoutinesAt img K.routines) : StmtsGoal img K (f + 1) := by
+theorem Sim.stmts_step (f : Nat) (ihB : BlockGoal V img K f) (ihOs : OperandsGoal V img K f)
+    (ihL : LoopGoal V img K f)
+    (ihCB : ∀ g, g + 2 = f + 1 → ∀ r st, BlockGoal V img ⟨some (r, st), K.routines⟩ g)
+    (ihCBR : ∀ g, g + 2 = f + 1 → ∀ r st, BlockRet V img ⟨some (r, st), K.routines⟩ g)
+    (hR : RoutinesAt V img K.routines) : StmtsGoal V img K (f + 1) := by
   intro st hst
   cases st with
   | setReg r v => exact stmt_setReg f r v hst.1 hst.2
@@ -171,24 +172,24 @@ theorem Sim.stmts_step (f : Nat) (ihB : BlockGoal img K f) (ihOs : OperandsGoal 
 
 /-- all the simulation statements at one fuel level, in every context with the routine table
 `R`: for the outcomes `normal` and `break` anywhere, for `return` inside a routine -/
-structure Sim.AllGoals (img : Image) (R : List (String × Sem.Routine)) (f : Nat) : Prop where
-  stmts : ∀ r, StmtsGoal img ⟨r, R⟩ f
-  block : ∀ r, BlockGoal img ⟨r, R⟩ f
-  operand : ∀ r, OperandGoal img ⟨r, R⟩ f
-  operands : ∀ r, OperandsGoal img ⟨r, R⟩ f
-  loop : ∀ r, LoopGoal img ⟨r, R⟩ f
-  whileI : ∀ r, WhileIter img ⟨r, R⟩ f
-  countI : ∀ r, CountIter img ⟨r, R⟩ f
-  stmtsR : ∀ r st, StmtsRet img ⟨some (r, st), R⟩ f
-  blockR : ∀ r st, BlockRet img ⟨some (r, st), R⟩ f
-  operandR : ∀ r st, OperandRet img ⟨some (r, st), R⟩ f
-  operandsR : ∀ r st, OperandsRet img ⟨some (r, st), R⟩ f
-  loopR : ∀ r st, LoopRet img ⟨some (r, st), R⟩ f
-  whileR : ∀ r st, WhileRet img ⟨some (r, st), R⟩ f
-  countR : ∀ r st, CountRet img ⟨some (r, st), R⟩ f
+structure Sim.AllGoals (V : String → Prop) (img : Image) (R : List (String × Sem.Routine)) (f : Nat) : Prop where
+  stmts : ∀ r, StmtsGoal V img ⟨r, R⟩ f
+  block : ∀ r, BlockGoal V img ⟨r, R⟩ f
+  operand : ∀ r, OperandGoal V img ⟨r, R⟩ f
+  operands : ∀ r, OperandsGoal V img ⟨r, R⟩ f
+  loop : ∀ r, LoopGoal V img ⟨r, R⟩ f
+  whileI : ∀ r, WhileIter V img ⟨r, R⟩ f
+  countI : ∀ r, CountIter V img ⟨r, R⟩ f
+  stmtsR : ∀ r st, StmtsRet V img ⟨some (r, st), R⟩ f
+  blockR : ∀ r st, BlockRet V img ⟨some (r, st), R⟩ f
+  operandR : ∀ r st, OperandRet V img ⟨some (r, st), R⟩ f
+  operandsR : ∀ r st, OperandsRet V img ⟨some (r, st), R⟩ f
+  loopR : ∀ r st, LoopRet V img ⟨some (r, st), R⟩ f
+  whileR : ∀ r st, WhileRet V img ⟨some (r, st), R⟩ f
+  countR : ∀ r st, CountRet V img ⟨some (r, st), R⟩ f
 
-theorem Sim.allGoals_le (img : Image) (R : List (String × Sem.Routine)) (hR : RoutinesAt img R) :
-    ∀ f, ∀ g, g ≤ f → AllGoals img R g := by
+theorem Sim.allGoals_le (img : Image) (R : List (String × Sem.Routine)) (hR : RoutinesAt V img R) :
+    ∀ f, ∀ g, g ≤ f → AllGoals V img R g := by
   intro f
   induction f with
   | zero =>
@@ -222,8 +223,8 @@ theorem Sim.allGoals_le (img : Image) (R : List (String × Sem.Routine)) (hR : R
         fun r st => while_ret_step f (ih.block _) (ih.blockR r st) (ih.whileR r st),
         fun r st => count_ret_step f (ih.block _) (ih.blockR r st) (ih.countR r st)⟩
 
-theorem Sim.allGoals (img : Image) (R : List (String × Sem.Routine)) (hR : RoutinesAt img R) (f : Nat) :
-    AllGoals img R f := allGoals_le img R hR f f (Nat.le_refl f)
+theorem Sim.allGoals (img : Image) (R : List (String × Sem.Routine)) (hR : RoutinesAt V img R) (f : Nat) :
+    AllGoals V img R f := allGoals_le img R hR f f (Nat.le_refl f)
 
 /-! ## the theorems -/
 
@@ -231,8 +232,8 @@ theorem Sim.allGoals (img : Image) (R : List (String × Sem.Routine)) (hR : Rout
 any number of enclosing loops `stk`, `break`s resolved to jump to `exit`): if the source says the
 block ends normally, the machine arrives just past the code; if the source says `break`, the
 machine arrives at `exit`; in both cases in a state related to the source-level state. -/
-theorem C01_gen_sim_block (img : Image) (K : Ctx) (hR : RoutinesAt img K.routines) (b : Block)
-    (hb : FragBlock b) (f : Nat) (σ σ' : S)
+theorem C01_gen_sim_block (img : Image) (K : Ctx) (hR : RoutinesAt V img K.routines) (b : Block)
+    (hb : FragBlock V b) (f : Nat) (σ σ' : S)
     (o : Outcome) (s : State) (pc exit : Nat) (stk : Stk)
     (hsim : Sim K stk σ s) (hpc : s.pc = (pc : Int))
     (hc : CodeAt img pc (resolve (genBlock b) pc exit))
@@ -243,8 +244,8 @@ theorem C01_gen_sim_block (img : Image) (K : Ctx) (hR : RoutinesAt img K.routine
   exact ⟨k, hk.1, hk.2⟩
 
 /-- the same for a single statement -/
-theorem C01_gen_sim_stmt (img : Image) (K : Ctx) (hR : RoutinesAt img K.routines) (st : Stmt)
-    (hst : FragStmt st) (f : Nat) (σ σ' : S)
+theorem C01_gen_sim_stmt (img : Image) (K : Ctx) (hR : RoutinesAt V img K.routines) (st : Stmt)
+    (hst : FragStmt V st) (f : Nat) (σ σ' : S)
     (o : Outcome) (s : State) (pc exit : Nat) (stk : Stk)
     (hsim : Sim K stk σ s) (hpc : s.pc = (pc : Int))
     (hc : CodeAt img pc (resolve (genStmt st) pc exit))
@@ -258,8 +259,8 @@ theorem C01_gen_sim_stmt (img : Image) (K : Ctx) (hR : RoutinesAt img K.routines
 `rest`): if the source says the block ends with `return` — from any depth of `if`, loops and
 matrix bodies — the machine arrives one past the return address with exactly the caller's frames
 left, and everything else as the source says (`Sim.RetPost`). -/
-theorem C01_gen_sim_return (img : Image) (K : Ctx) (hR : RoutinesAt img K.routines) (ret : Nat)
-    (rest : List Frame) (evc : List Val) (hK : K.ret = some (ret, rest, evc)) (b : Block) (hb : FragBlock b)
+theorem C01_gen_sim_return (img : Image) (K : Ctx) (hR : RoutinesAt V img K.routines) (ret : Nat)
+    (rest : List Frame) (evc : List Val) (hK : K.ret = some (ret, rest, evc)) (b : Block) (hb : FragBlock V b)
     (f : Nat) (σ σ' : S) (s : State) (pc exit : Nat) (stk : Stk)
     (hsim : Sim K stk σ s) (hpc : s.pc = (pc : Int))
     (hc : CodeAt img pc (resolve (genBlock b) pc exit)) (h : execBlock f b σ = (.ret, σ')) :
@@ -283,8 +284,8 @@ many steps, a state with the program counter just past the code that is related 
 In words: the compiled code issues exactly the device commands, waits and output the source
 says, in the same order, and leaves every variable, macro and register (but the scratch register
 `result`) as the source says. -/
-theorem C01_gen_sim_partial (img : Image) (R : List (String × Sem.Routine)) (hR : RoutinesAt img R)
-    (b : Block) (hb : FragBlock b) (code : List Instr)
+theorem C01_gen_sim_partial (img : Image) (R : List (String × Sem.Routine)) (hR : RoutinesAt V img R)
+    (b : Block) (hb : FragBlock V b) (code : List Instr)
     (hcode : Gen.genProgram b = some code) (f : Nat) (σ σ' : S) (s : State) (pc : Nat)
     (hsim : Sim ⟨none, R⟩ {} σ s) (hpc : s.pc = (pc : Int)) (hc : CodeAt img pc code)
     (h : execBlock f b σ = (.normal, σ')) :
@@ -299,8 +300,8 @@ theorem C01_gen_sim_partial (img : Image) (R : List (String × Sem.Routine)) (hR
 is exactly the source-level trace — which by the definition of `Sem` consists of one group of
 events per dynamic execution of a statement, in program order — and so are the variables,
 macros, lights and all registers other than `result`. -/
-theorem C01_once_each_in_order (img : Image) (R : List (String × Sem.Routine)) (hR : RoutinesAt img R)
-    (b : Block) (hb : FragBlock b) (code : List Instr)
+theorem C01_once_each_in_order (img : Image) (R : List (String × Sem.Routine)) (hR : RoutinesAt V img R)
+    (b : Block) (hb : FragBlock V b) (code : List Instr)
     (hcode : Gen.genProgram b = some code) (f : Nat) (σ σ' : S) (s : State) (pc : Nat)
     (hsim : Sim ⟨none, R⟩ {} σ s) (hpc : s.pc = (pc : Int)) (hc : CodeAt img pc code)
     (h : execBlock f b σ = (.normal, σ')) :
@@ -322,7 +323,7 @@ theorem Sim.init (lights : List Light) (rts : List (String × Sem.Routine)) :
 address 0 of an image that ends with it: if the source-level run (`Sem.run`) ends normally, the
 machine started in its initial state halts, and what `Machine.run` leaves behind
 (`Vm.finish`) is the source-level trace followed by the final flush of the output sink. -/
-theorem C01_gen_sim_program (b : Block) (hb : FragBlock b) (code : List Instr)
+theorem C01_gen_sim_program (b : Block) (hb : FragBlock V b) (code : List Instr)
     (hcode : Gen.genProgram b = some code) (f : Nat)
     (lights : List Light) (σ' : S) (h : Sem.run f b lights = (.normal, σ')) :
     ∃ k, (run ⟨code.toArray, []⟩ k (Vm.init lights)).status = .halted ∧
@@ -330,7 +331,7 @@ theorem C01_gen_sim_program (b : Block) (hb : FragBlock b) (code : List Instr)
   have hc : CodeAt ⟨code.toArray, []⟩ 0 code := by
     have := CodeAt.intro [] code [] []
     simpa using this
-  have hR : RoutinesAt ⟨code.toArray, []⟩ [] := fun name => rfl
+  have hR : RoutinesAt V ⟨code.toArray, []⟩ [] := fun name => rfl
   have h' : execBlock f b { vm := Vm.init lights, routines := [] } = (.normal, σ') := by
     have := h
     simp only [Sem.run, collect_frag b hb, List.reverse_nil] at this
@@ -353,7 +354,7 @@ theorem C01_gen_sim_program (b : Block) (hb : FragBlock b) (code : List Instr)
 /-- **whole scripts, through the loader.**  The same for the image the loader makes of the
 compiled script (`Loader.load`): a script of the fragment has no routines, so the loader leaves
 its code where it is. -/
-theorem C01_gen_sim_loaded (b : Block) (hb : FragBlock b) (code : List Instr)
+theorem C01_gen_sim_loaded (b : Block) (hb : FragBlock V b) (code : List Instr)
     (hcode : Gen.genProgram b = some code) (f : Nat) (lights : List Light) (σ' : S)
     (h : Sem.run f b lights = (.normal, σ')) :
     ∃ k, (run (Loader.load code) k (Vm.init lights)).status = .halted ∧
@@ -446,7 +447,7 @@ def c01Code : List Instr := [
   .out .printEnd (.lit .none),
   .moveq (.bool true) (.reg .power), .wait, .moveq (.operand .all) (.reg .operand), .power]
 
-theorem c01Script_frag : FragBlock c01Script := by
+theorem c01Script_frag : FragBlock (fun _ => True) c01Script := by
   simp only [c01Script, Block.ofList, FragBlock, FragStmt, FragOperands, FragOperand, RvOK, LoopHdrOK]
   refine ⟨?_, ?_, ?_, ?_, ?_, ?_, ?_, ?_, ?_, ?_, ?_, ?_⟩
   all_goals first
@@ -604,7 +605,7 @@ def c01Code2 : List Instr :=
   Instr.moveq (Val.operand (Operand.all)) (Dst.reg (Reg.operand)),
   Instr.color]
 
-theorem c01Script2_frag : FragBlock c01Script2 := by
+theorem c01Script2_frag : FragBlock (fun _ => True) c01Script2 := by
   simp only [c01Script2, Block.ofList, FragBlock, FragStmt, FragOperands, FragOperand, RvOK, LoopHdrOK,
     ORangeOK, RangeOK]
   refine ⟨?_, ?_, ?_, ?_, ?_, ?_, ?_, ?_, ?_, ?_, ?_, ?_, ?_⟩
@@ -733,7 +734,7 @@ def callImg : Image :=
 
 def callRoutines : List (String × Sem.Routine) := [("down", ⟨["n"], downBody⟩)]
 
-theorem downBody_frag : FragBlock downBody := by
+theorem downBody_frag : FragBlock (fun _ => True) downBody := by
   simp only [downBody, Block.ofList, FragBlock, FragStmt, RvOK, LoopHdrOK, NoResultReg]
   refine ⟨?_, ?_, ?_, ?_, ?_, ?_⟩
   all_goals first
@@ -741,7 +742,7 @@ theorem downBody_frag : FragBlock downBody := by
     | decide
     | (repeat' constructor) <;> first | trivial | decide | nofun
 
-theorem mainBlock_frag : FragBlock mainBlock := by
+theorem mainBlock_frag : FragBlock (fun _ => True) mainBlock := by
   simp only [mainBlock, Block.ofList, FragBlock, FragStmt, RvOK, NoResultReg]
   refine ⟨?_, ?_, ?_, ?_, ?_, ?_, ?_⟩
   all_goals first
@@ -766,7 +767,7 @@ example : (Loader.load ([Instr.routine "down"] ++ downCode ++ [Instr.end_ "down"
     (Loader.load ([Instr.routine "down"] ++ downCode ++ [Instr.end_ "down"] ++ mainCode)).routines =
       callImg.routines := by decide +kernel
 
-theorem callImg_routines : RoutinesAt callImg callRoutines := by
+theorem callImg_routines : RoutinesAt (fun _ => True) callImg callRoutines := by
   intro name
   by_cases h : name = "down"
   · subst h
@@ -864,7 +865,7 @@ def c01Code3 : List Instr := [
   .push (.var "h"), .push (.loopVar .incr), .op .add, .pop (.var "h"), .jump .always (-16), .endLoop,
   .move (.var "h") (.reg .result), .out .register (.reg .result), .out .print (.lit .none)]
 
-theorem c01Script3_frag : FragBlock c01Script3 := by
+theorem c01Script3_frag : FragBlock (fun _ => True) c01Script3 := by
   simp only [c01Script3, Block.ofList, FragBlock, FragStmt, RvOK, LoopHdrOK, WithOK]
   refine ⟨?_, ?_, ?_, ?_, ?_, ?_, ?_, ?_⟩
   all_goals first
@@ -996,7 +997,7 @@ def c01Code4 : List Instr := [
   .out .print (.lit .none), .push (.loopVar .counter), .pushq (.int 1), .op .sub, .pop (.loopVar .counter),
   .jump .always (-48), .endLoop]
 
-theorem c01Script4_frag : FragBlock c01Script4 := by
+theorem c01Script4_frag : FragBlock (fun _ => True) c01Script4 := by
   simp only [c01Script4, Block.ofList, FragBlock, FragStmt, RvOK, LoopHdrOK, WithOK, OWithOK,
     List.forall_mem_cons, ItemOK, List.not_mem_nil, false_imp_iff, implies_true]
   refine ⟨?_, ?_, ?_, ?_, ?_, ?_⟩
